@@ -5,6 +5,7 @@ go 1.23
 toolchain go1.23.5
 
 require (
+	github.com/rs/xid v1.6.0
 	github.com/rs/zerolog v0.0.0
 	pgregory.net/rapid v1.3.0
 )
@@ -13,7 +14,6 @@ require (
 	github.com/coreos/go-systemd/v22 v22.5.0 // indirect
 	github.com/mattn/go-colorable v0.1.13 // indirect
 	github.com/mattn/go-isatty v0.0.19 // indirect
-	github.com/rs/xid v1.6.0 // indirect
 	golang.org/x/sys v0.12.0 // indirect
 )
 
